@@ -342,7 +342,11 @@ def prepare(tier):
 # ------------------------------------------------------------------ corpus
 def _conv(elt, x):
     if elt == 'rat': return Fraction(x)
-    if elt == 'f64': return float.fromhex(x) if isinstance(x, str) else float(x)
+    if elt == 'f64':
+        if isinstance(x, str): return float.fromhex(x) if "x" in x.lower() else float(x)
+        return float(x)
+    if isinstance(x, str): return complex(x.replace(" ", ""))          # "(1+2j)" as written by the replay files
+    if isinstance(x, (int, float)): return complex(x)
     return complex(*[float.fromhex(t) if isinstance(t, str) else float(t) for t in x])
 
 def case_from_json(j):
@@ -353,6 +357,11 @@ def case_from_json(j):
     if kind == "normlaws": return normlaws_case([F(x) for x in m["u"]], [F(x) for x in m["v"]], F(m["c"]), F(m["p"]), "corpus")
     if kind == "linspace": return linspace_case(F(m["a"]), F(m["b"]), int(m["n"]), "corpus")
     if kind == "powspace": return powspace_case(F(m["a"]), F(m["b"]), int(m["n"]), F(m["p"]), "corpus")
+    if kind == "scale_l": return scale_l_case(F(m["s"]), [F(x) for x in m["v"]], "corpus")
+    if kind == "cx": return cx_case([_conv('cplx', x) for x in m["v"]], "corpus")
+    if kind == "ctor": return ctor_case(elt, int(m["n"]), _conv(elt, m["x"]), [_conv(elt, x) for x in m["w"]], "corpus")
+    if kind == "sort_ord": return sort_ord_case([int(x) for x in m["xs"]], "corpus")
+    if kind == "random": return random_case(int(m["n"]))
     if kind != "hist":
         return None
     v0 = [_conv(elt, x) for x in m["v0"]]
